@@ -269,6 +269,10 @@ impl TestRunner {
             }
         }
 
+        // An element fires every time the program counter reaches it (e.g. in a loop or a subroutine that is called
+        // more than once), so everything that did not end the test is put back in the list afterwards
+        let mut fired = vec![];
+
         for mut trace in active_traces {
             let fmt = match trace.exprs.is_empty() {
                 true => format_cpu_details(&self.cpu, false),
@@ -277,10 +281,11 @@ impl TestRunner {
                         .snapshot
                         .symbols
                         .ensure_cpu_symbols(self.registers(), self.cpu.get_status_register());
-                    format_trace(trace, &self.ctx.lock().unwrap())
+                    format_trace(&trace, &self.ctx.lock().unwrap())
                 }
             };
             self.formatted_traces.push(FormattedTrace(fmt));
+            fired.push(TestElement::Trace(trace));
         }
 
         for mut assertion in active_assertions {
@@ -314,7 +319,10 @@ impl TestRunner {
                     Box::new(failure),
                 ));
             }
+            drop(ctx);
+            fired.push(TestElement::Assertion(assertion));
         }
+        self.test_elements.extend(fired);
 
         if self.ram.read().unwrap().ram[self.cpu.get_program_counter() as usize] == 0 {
             // BRK, test succeeded
@@ -390,7 +398,7 @@ impl TestRunner {
     }
 }
 
-fn format_trace(trace: Trace, ctx: &CodegenContext) -> String {
+fn format_trace(trace: &Trace, ctx: &CodegenContext) -> String {
     let mut eval = vec![];
     for expr in &trace.exprs {
         let evaluator = trace.snapshot.get_evaluator(ctx.functions());
